@@ -6,6 +6,7 @@ require (
 	github.com/cossacklabs/acra v0.0.0
 	github.com/cossacklabs/pg_query_go/v5 v5.1.0
 	github.com/cossacklabs/themis/gothemis v0.14.0
+	github.com/jackc/pgx/v5 v5.7.2
 	github.com/sirupsen/logrus v1.6.0
 )
 
@@ -32,7 +33,6 @@ require (
 	github.com/hashicorp/go-rootcerts v1.0.2 // indirect
 	github.com/hashicorp/golang-lru v0.5.4 // indirect
 	github.com/hashicorp/serf v0.10.1 // indirect
-	github.com/jackc/pgx/v5 v5.7.2 // indirect
 	github.com/leodido/go-urn v1.2.4 // indirect
 	github.com/lib/pq v1.10.9 // indirect
 	github.com/mattn/go-colorable v0.1.13 // indirect
